@@ -266,8 +266,34 @@ impl Scratch {
         }
         let target = crate::runner::verif_root().join("target").join("scratch-b");
         let bin = target.join("debug").join("vscratch");
-        let out = Command::new(&bin).current_dir(&self.dir).env_remove("RUSTEMO_TRACE").output().map_err(|e| format!("cannot run scratch binary: {e}"))?;
-        let text = String::from_utf8_lossy(&out.stdout).to_string();
+        // run with a wall-clock limit: a generated parser has no step budget, and a time budget
+        // hit means "inconclusive", never a violation
+        let limit: u64 = std::env::var("VERIF_SCRATCH_RUN_LIMIT_S").ok().and_then(|s| s.parse().ok()).unwrap_or(600);
+        let outp = self.dir.join("stdout.txt");
+        let outf = std::fs::File::create(&outp).map_err(|e| format!("cannot create {outp:?}: {e}"))?;
+        let mut child = Command::new(&bin)
+            .current_dir(&self.dir)
+            .env_remove("RUSTEMO_TRACE")
+            .stdout(outf)
+            .stderr(std::process::Stdio::null())
+            .spawn()
+            .map_err(|e| format!("cannot run scratch binary: {e}"))?;
+        let t0 = std::time::Instant::now();
+        loop {
+            match child.try_wait() {
+                Ok(Some(_)) => break,
+                Ok(None) => {
+                    if t0.elapsed().as_secs() > limit {
+                        let _ = child.kill();
+                        let _ = child.wait();
+                        return Err(format!("scratch binary exceeded the wall-clock limit of {limit}s"));
+                    }
+                    std::thread::sleep(std::time::Duration::from_millis(50));
+                }
+                Err(e) => return Err(format!("cannot wait for the scratch binary: {e}")),
+            }
+        }
+        let text = std::fs::read_to_string(&outp).map(|s| s).unwrap_or_else(|_| String::from_utf8_lossy(&std::fs::read(&outp).unwrap_or_default()).to_string());
         let mut blocks: BTreeMap<String, String> = BTreeMap::new();
         let mut cur: Option<(String, String)> = None;
         for line in text.lines() {
